@@ -17,6 +17,7 @@
 
 #include <dlfcn.h>
 #include <link.h>
+#include <locale.h>
 #include <pthread.h>
 #include <sched.h>
 #include <signal.h>
@@ -85,7 +86,58 @@ static void leave(prog_t *t, int api, int allow_live) {
         }
     }
 }
-#define API(id, stmt) do { enter(t, id); stmt; leave(t, id, 0); } while (0)
+/* ---- libc functions that keep hidden process-wide state: a library call that reaches one of them is not re-entrant even
+ * though it writes none of its own static memory (the write-trap cannot see libc's).  The monitor executable defines them, so
+ * the library's calls resolve here first; each use from inside an API call is recorded, then forwarded to libc. */
+#ifndef __SANITIZE_THREAD__
+static _Atomic long nonreentrant_calls;
+static _Thread_local int in_api_call;
+static char nonreentrant_first[64];
+static void note_nonreentrant(const char *name) {
+    if (!in_api_call) return; /* the harness itself may use them freely */
+    if (atomic_fetch_add(&nonreentrant_calls, 1) == 0) snprintf(nonreentrant_first, sizeof nonreentrant_first, "%s", name);
+}
+#define FORWARD(ret, name, params, args) \
+    ret name params { \
+        static ret(*real) params; \
+        if (!real) *(void **)&real = dlsym(RTLD_NEXT, #name); \
+        note_nonreentrant(#name); \
+        return real args; \
+    }
+FORWARD(char *, strtok, (char *a, const char *b), (a, b))
+FORWARD(int, rand, (void), ())
+FORWARD(long, random, (void), ())
+FORWARD(double, drand48, (void), ())
+FORWARD(long, lrand48, (void), ())
+FORWARD(struct tm *, localtime, (const time_t *t), (t))
+FORWARD(struct tm *, gmtime, (const time_t *t), (t))
+FORWARD(char *, ctime, (const time_t *t), (t))
+FORWARD(char *, asctime, (const struct tm *t), (t))
+FORWARD(char *, setlocale, (int c, const char *l), (c, l))
+FORWARD(char *, strerror, (int e), (e))
+FORWARD(char *, tmpnam, (char *b), (b))
+void srand(unsigned s) {
+    static void (*real)(unsigned);
+    if (!real) *(void **)&real = dlsym(RTLD_NEXT, "srand");
+    note_nonreentrant("srand");
+    real(s);
+}
+#define API_ENTER() (in_api_call = 1)
+#define API_LEAVE() (in_api_call = 0)
+static void report_nonreentrant(void) {
+    long n = atomic_load(&nonreentrant_calls);
+    vf_add("libc_hidden_state.calls_from_api", n);
+    if (n)
+        vf_violation("non-reentrant-libc", nonreentrant_first, vf_mix((uint64_t)nonreentrant_first[0] * 131 + (uint64_t)nonreentrant_first[1]), "",
+                     "%ld call(s) from inside API calls to libc functions with hidden process-wide state (first: %s)", n, nonreentrant_first);
+}
+#else
+#define API_ENTER() ((void)0)
+#define API_LEAVE() ((void)0)
+static void report_nonreentrant(void) {}
+#endif
+
+#define API(id, stmt) do { enter(t, id); API_ENTER(); stmt; API_LEAVE(); leave(t, id, 0); } while (0)
 
 /* one step of the mixed program: everything lives on this thread's stack / heap */
 static void step(prog_t *t) {
@@ -430,6 +482,7 @@ static void run(void) {
     else if (!strcmp(VF.phase, "ledger")) run_ledger();
     else if (!strcmp(VF.phase, "tsan")) run_threads(1, VF_T(1, 4), VF_T(150, 500));
     else run_threads(1, VF_T(2, 10), VF_T(600, 2000));
+    report_nonreentrant();
 }
 static void replay(const char *spec) {
     (void)spec;
